@@ -136,7 +136,20 @@ class World:
         raise OutOfSubset(f"raise of {v!r}")
 
     def fstring(self, I, e, env, mod):
-        return OpaqueStr()
+        """f-strings over concrete parts are evaluated; anything symbolic makes the whole string opaque."""
+        parts = []
+        for v in e.values:
+            if isinstance(v, ast.Constant):
+                parts.append(str(v.value))
+            elif isinstance(v, ast.FormattedValue):
+                x = I.eval(v.value, env, mod)
+                if isinstance(x, (str, int, bool, float)) and v.format_spec is None and v.conversion == -1:
+                    parts.append(format(x))
+                else:
+                    return OpaqueStr()
+            else:
+                return OpaqueStr()
+        return "".join(parts)
 
     def on_yield(self, I, frame, v):
         if frame.yields is None:
@@ -540,6 +553,9 @@ class PyClassToken(SymObj):
 
     def py_getitem(self, I, key):
         return I.world.class_getitem(I, self, key)
+
+    def py_hasattr(self, I, name):
+        return name not in ("__origin__", "__args__", "__type_order__", "__is_supertype__", "__is_subtype__", "codegen", "with_bound")
 
     def py_eq(self, I, other):
         if isinstance(other, PyClassToken):
